@@ -569,7 +569,7 @@ pub fn run(run: &Run) {
     run.section_exhaustive("cut-table", run.tier == vcore::Tier::Thorough, "single cut positions of SETTINGS, close capsule, request and response HEADERS (every position in the thorough tier, every n/12-th in quick) with one event in between, both roles");
     prop_search(
         run,
-        Search { check: "segmentation", cases: run.tier.pick(160, 2500), workers: 1, max_shrink_iters: 40 },
+        Search { check: "segmentation", cases: run.tier.pick(110, 2500), workers: 1, max_shrink_iters: 40 },
         case_strategy,
         |c| judge(|| exec(c), false, "C05:hang"),
         |c| serde_json::to_value(c).unwrap(),
